@@ -79,7 +79,14 @@ func (ir *ifdReader) DecodeIfd(r io.Reader, h meta.ExifHeader) (err error) {
 	ir.Exif.ImageType = h.ImageType
 	ir.exifLength = h.ExifLength
 	ir.firstIfdOffset = h.FirstIfdOffset
-	ir.po = h.FirstIfdOffset
+	// The reader stands right after the 8 byte Tiff header. The first Ifd
+	// usually follows it directly, but may be anywhere after it.
+	ir.po = tiffHeaderLength
+	if h.FirstIfdOffset > tiffHeaderLength {
+		if err = ir.discard(int(h.FirstIfdOffset - tiffHeaderLength)); err != nil {
+			return err
+		}
+	}
 	err = ir.readIfd(ifds.NewIFD(h.ByteOrder, ifds.IfdType(h.FirstIfd), 0, ir.tiffHeaderOffset, 0))
 	return err
 }
@@ -167,6 +174,9 @@ func (ir *ifdReader) readIfdHeader(ifd ifds.Ifd) (err error) {
 	// read Next Ifd Tag
 	return ir.readNextIfdTag(ifd)
 }
+
+// tiffHeaderLength is the byte order mark, magic number and first Ifd offset
+const tiffHeaderLength = 8
 
 // maxValueLength is the largest tag value read from a reader that is not
 // buffered; it matches what Peek on the 4 KiB bufio.Readers used by the other
